@@ -52,7 +52,63 @@ def sympath(name, element=None):
     return {'segment': segs}
 
 
+WIRE_COUNT = 0
+WIRE = False        # True: tag services travel as bytes - reference encoder -> the real parser -> request() -> the reply bytes -> the real parser
+
+
+def _parse_cip(raw):
+    data = cpppo.dotdict()
+    src = cpppo.chainable(bytes(raw))
+    with logix.Logix.parser as machine:
+        for m, s in machine.run(source=src, data=data):
+            pass
+    if src.peek() is not None:
+        raise AssertionError('the Logix parser left %d bytes unparsed' % len(bytes(bytearray(b for b in src))))
+    return data
+
+
+def _wire_bytes(kw):
+    """the request as the reference encoder spells it, or None when this request has no wire form here (no symbolic path, values out of range)"""
+    import struct
+    from . import wire
+    try:
+        segs = kw['path']['segment']
+        if not (1 <= len(segs) <= 2 and 'symbolic' in segs[0] and (len(segs) == 1 or list(segs[1].keys()) == ['element'])):
+            return None
+        name = segs[0]['symbolic']
+        elem = segs[1]['element'] if len(segs) == 2 else None
+        if elem is not None and not (0 <= elem <= 0xffffffff):
+            return None
+        svc = kw.get('service')
+        if svc == 0x4c and set(kw) == {'service', 'path', 'read_tag'}:
+            return wire.read_tag(name, elem, kw['read_tag']['elements'])
+        if svc == 0x52 and set(kw) == {'service', 'path', 'read_frag'}:
+            return wire.read_frag(name, elem, kw['read_frag']['elements'], kw['read_frag']['offset'])
+        if svc == 0x4d and set(kw) == {'service', 'path', 'write_tag'}:
+            w = kw['write_tag']
+            return wire.write_tag(name, elem, w['type'], list(w['data']), elements=w['elements'])
+        if svc == 0x53 and set(kw) == {'service', 'path', 'write_frag'}:
+            w = kw['write_frag']
+            return wire.write_frag(name, elem, w['type'], w['elements'], w['offset'], list(w['data']))
+    except (struct.error, KeyError, TypeError, OverflowError, UnicodeEncodeError):
+        return None
+    return None
+
+
 def request(lx, **kw):
+    raw = _wire_bytes(kw) if WIRE else None
+    d = None
+    if raw is not None:
+        try:
+            d = _parse_cip(raw)
+        except Exception:
+            d = None            # not a frame the parser takes (eg. a write without data): only expressible as a request record
+    if d is not None:
+        global WIRE_COUNT
+        WIRE_COUNT += 1
+        lx.request(d)
+        r = _parse_cip(d.input)
+        return r
     d = cpppo.dotdict()
     for k, v in kw.items():
         d[k] = v
@@ -82,4 +138,4 @@ def status_of(d):
     ext = None
     if 'status_ext' in d and d.status_ext:
         ext = list(d.status_ext.get('data', [])) if hasattr(d.status_ext, 'get') else None
-    return d.status, ext
+    return d.status, (ext or None)
